@@ -13,7 +13,8 @@ def run(ctx):
     vlib.check_goals(ctx, "MC_Tower", "MC_Tower.cfg", ["GoalRejected"])
     # (S->I) all outcome sequences of the bounded model over the real SentinelService
     beh = ctx.path("beh.jsonl")
-    n = vlib.generate(ctx, "MC_Tower", "Gen_Tower.cfg" if q else "Gen_Tower_thorough.cfg", beh, workers=4, timeout=1500)
+    n = vlib.generate(ctx, "MC_Tower", "Gen_Tower.cfg" if q else "Gen_Tower_thorough.cfg", beh, workers=4, timeout=1500,
+                      limit=8000 if q else 150000)
     ctx.behaviours += n
     vlib.vh(ctx, ["replay", "--in", beh, "--out", ctx.path("replay.ndjson")], binary=VHT)
     rej = vlib.validate_traces(ctx, TRACE[0], TRACE[1], ctx.path("replay.ndjson"), "replay")
